@@ -88,6 +88,20 @@ class C03(RegConcCheck):
     pid = "C03"
     prop_module = "SigHook.Props.C03"
 
+    def replay(self, payload):
+        if payload.get("pipes"):
+            from . import c13
+            pi, _ = c13.run_blocks([payload["ops"]])
+            bad = [l for l in pi[0] if "WOULD-BLOCK" in l or ("BLOCKING" in l and l.strip().startswith("sys"))]
+            return bool(bad), "\n".join(pi[0])
+        if any(l.startswith("setup watch") for l in payload.get("scenario", [])):
+            from . import c09
+            class It(c09.IterCheck):
+                pid = "C03"
+                profile = "handler"
+            return It().replay(payload)
+        return super().replay(payload)
+
     def correspond(self, tier, seed, rng):
         res = super().correspond(tier, seed, rng)
         # built-in action of the iterators (store into the slot + self-pipe wake), incl. a full pipe
@@ -102,6 +116,25 @@ class C03(RegConcCheck):
         res["distribution"]["iterator_scenarios"] = ires["evaluations"]
         res["distribution"]["iterator_wakes_on_full_pipe"] = ires["distribution"].get("= -1", 0)
         res["rule"] += "; plus iterator scenarios (the instance's real action: slot store + self-pipe wake, half of them with the pipe filled to capacity) with the same per-step monitor and a would-block detector on every write/send"
+        # the other built-in wake action: `low_level::pipe` on pipes, stream and datagram sockets, empty
+        # and full, left blocking by the caller (forked probes with the system calls logged)
+        from . import c13
+        pblocks = []
+        for k in c13.KINDS:
+            for full in (0, 1):
+                for how in ("own", "raw"):
+                    pblocks.append(["mk %s 0 %d" % (k, full), "reg %s 10" % how, "raise %d" % (3 if tier == "quick" else 300), "final"])
+        pi, _pm = c13.run_blocks(pblocks)
+        for b, impl in zip(pblocks, pi):
+            bad = [l.strip() for l in impl if l.strip().startswith("WOULD-BLOCK") or ("BLOCKING" in l and l.strip().startswith("sys"))]
+            raised = [l for l in impl if l.startswith("raised") and ("wouldblock=0" not in l or "blocking_calls=0" not in l or "slow=0" not in l)]
+            if bad or raised:
+                res["failures"].append({"kind": "violation", "key": "C03:pipe:" + b[0],
+                                        "what": "ops `%s`: the self-pipe wake inside a delivery makes a call that can block: `%s`" % ("; ".join(b), (bad + raised)[0]),
+                                        "payload": {"ops": b, "impl": impl, "pipes": True}})
+        res["evaluations"] += len(pblocks)
+        res["distribution"]["pipe_wake_probes"] = len(pblocks)
+        res["rule"] += "; plus forked probes of the `low_level::pipe` wake on pipes / stream / datagram sockets, empty and full, that the caller left blocking (no call that can block may be made from the delivery)"
         uniq = {}
         for f in res["failures"]:
             uniq.setdefault(f["key"], f)
